@@ -121,8 +121,10 @@ end
 
 def hexDigit (n : Nat) : Char := "0123456789ABCDEF".toList.getD n '0'
 
+/-- a `Lang` string is a byte string, one `Char` below 256 per byte (`Lang.strBytes`, the reading `unhex` builds
+    and `Props/XLinks.lean` relates to the C04 value layer): printed byte by byte, not as UTF-8 -/
 def esc (s : String) : String :=
-  String.ofList (s.toUTF8.toList.flatMap fun b =>
+  String.ofList ((strBytes s).flatMap fun b =>
     let c := Char.ofNat b.toNat
     if c.isAlphanum || c == '_' || c == '.' || c == '-' then [c]
     else ['%', hexDigit (b.toNat / 16), hexDigit (b.toNat % 16)])
